@@ -147,6 +147,14 @@ var commonTypes = []uint16{1, 2, 5, 6, 12, 15, 16, 28, 33, 43, 46, 47, 48, 50, 5
 func BitmapTypes(t *rapid.T, o *Opts) []uint16 {
 	n := rapid.IntRange(0, 10).Draw(t, "nbm")
 	set := map[uint16]bool{}
+	if rapid.IntRange(0, 5).Draw(t, "widebm") == 0 {
+		// several windows with high bits set: encodings longer than one full window block
+		for _, w := range []uint16{0, 1, 2, 128, 255} {
+			if rapid.Bool().Draw(t, "win") {
+				set[w<<8|uint16(rapid.IntRange(200, 255).Draw(t, "hibit"))] = true
+			}
+		}
+	}
 	for i := 0; i < n; i++ {
 		var v uint16
 		switch rapid.IntRange(0, 5).Draw(t, "bmk") {
